@@ -442,3 +442,126 @@ func unclaimedDirLane(c *ev.Ctx, sidecar bool, how string) {
 		}
 	}
 }
+
+// Refused-settings-change lane: a request that is refused changes nothing - also a PutBucketPolicy whose document is
+// valid but cannot be stored (larger than what the metadata store takes for one attribute). The bucket's ACL is more
+// generous than its policy (bob holds READ, the owner alice FULL_CONTROL; the policy allows alice to read and nothing
+// else), so whatever removes or damages the policy in force shows as access the policy does not give. The oversized
+// document allows exactly what the policy in force allows: whether the store takes it or not, the decisions stay.
+func refusedPolicyPutLane(c *ev.Ctx, sidecar bool) {
+	store := "xattr"
+	if sidecar {
+		store = "sidecar"
+	}
+	id := "p/oversized-policy/" + store
+	if !c.Want(id) {
+		return
+	}
+	env, err := fx.New("c03p", gw.Config{Sidecar: sidecar}, 1)
+	if err != nil {
+		c.Inconclusive("gateway start (refused-policy lane): " + err.Error())
+		return
+	}
+	defer env.Close()
+	root := env.Client(0)
+	for _, u := range [][2]string{{"alice", "userplus"}, {"bob", "user"}} {
+		if r := env.CreateUser(u[0], u[0]+"-secret-1", u[1], 0, 0); r.Status != 201 {
+			c.Inconclusive("create user: " + r.String())
+			return
+		}
+	}
+	alice, bob := root.With("alice", "alice-secret-1"), root.With("bob", "bob-secret-1")
+	const b = "guarded"
+	if r := alice.CreateBucket(b, "x-amz-object-ownership", "BucketOwnerPreferred", "x-amz-grant-read", "bob", "x-amz-grant-full-control", "alice"); !r.OK() {
+		c.Inconclusive("create bucket: " + r.String())
+		return
+	}
+	root.PutObject(b, "doc", []byte("guarded data"))
+	p1 := fmt.Sprintf(`{"Version":"2012-10-17","Statement":[{"Effect":"Allow","Principal":{"AWS":["alice"]},"Action":["s3:GetObject","s3:ListBucket"],"Resource":["arn:aws:s3:::%s","arn:aws:s3:::%s/*"]}]}`, b, b)
+	if r := root.Sub("PUT", b, "", "policy=", []byte(p1)); !r.OK() {
+		c.Inconclusive("put policy: " + r.String())
+		return
+	}
+	type probe struct {
+		name  string
+		allow bool
+		run   func() *s3c.Resp
+	}
+	probes := []probe{
+		{"owner-get-object", true, func() *s3c.Resp { return alice.GetObject(b, "doc") }},
+		{"owner-list", true, func() *s3c.Resp { return alice.ListV2(b) }},
+		{"owner-put-object", false, func() *s3c.Resp { return alice.PutObject(b, "new", []byte("x")) }},
+		{"owner-delete-object", false, func() *s3c.Resp { return alice.DeleteObject(b, "doc") }},
+		{"owner-put-bucket-acl", false, func() *s3c.Resp { return alice.Sub("PUT", b, "", "acl=", nil, "X-Amz-Acl", "public-read-write") }},
+		{"acl-grantee-get-object", false, func() *s3c.Resp { return bob.GetObject(b, "doc") }},
+		{"acl-grantee-list", false, func() *s3c.Resp { return bob.ListV2(b) }},
+		{"acl-grantee-put-object", false, func() *s3c.Resp { return bob.PutObject(b, "intruder", []byte("x")) }},
+	}
+	judge := func(when string) bool {
+		ok := true
+		for _, p := range probes {
+			r := p.run()
+			c.Eval(1)
+			if r.Err != nil {
+				c.Inconclusive("transport error in refused-policy lane")
+				return false
+			}
+			got := r.Status < 300
+			if got != p.allow {
+				dir := "allowed-against-the-policy-in-force"
+				if !got {
+					dir = "refused-against-the-policy-in-force"
+				}
+				c.Violation("refused-policy-put:"+when+":"+p.name+":"+dir+"["+store+"]", id, map[string]any{"when": when, "probe": p.name, "answer": r.String(), "policy_in_force": p1})
+				ok = false
+			}
+		}
+		if g := root.GetObject(b, "doc"); !g.OK() || string(g.Body) != "guarded data" {
+			c.Violation("refused-policy-put:"+when+":object-changed["+store+"]", id, map[string]any{"get": g.String()})
+			root.PutObject(b, "doc", []byte("guarded data"))
+			ok = false
+		}
+		return ok
+	}
+	if !judge("before") {
+		return
+	}
+	// the same permissions written as very many statements: ~80 KB
+	var sb strings.Builder
+	sb.WriteString(`{"Version":"2012-10-17","Statement":[`)
+	sb.WriteString(fmt.Sprintf(`{"Effect":"Allow","Principal":{"AWS":["alice"]},"Action":["s3:GetObject","s3:ListBucket"],"Resource":["arn:aws:s3:::%s","arn:aws:s3:::%s/*"]}`, b, b))
+	for i := 0; sb.Len() < 80000; i++ {
+		sb.WriteString(fmt.Sprintf(`,{"Sid":"statement-%05d","Effect":"Allow","Principal":{"AWS":["alice"]},"Action":"s3:GetObject","Resource":"arn:aws:s3:::%s/archive/%05d/*"}`, i, b, i))
+	}
+	sb.WriteString(`]}`)
+	for _, big := range []string{sb.String(), strings.Repeat(" ", 70000) + p1} {
+		pr := root.Sub("PUT", b, "", "policy=", []byte(big))
+		c.Eval(1)
+		if pr.Err != nil {
+			c.Inconclusive("transport error in refused-policy lane")
+			return
+		}
+		gp := root.Sub("GET", b, "", "policy=", nil)
+		switch {
+		case pr.Status < 300:
+			if !gp.OK() || string(gp.Body) != big {
+				c.Violation("refused-policy-put:accepted-document-not-read-back["+store+"]", id, map[string]any{"put": pr.String(), "get": gp.String(), "get_len": len(gp.Body), "put_len": len(big)})
+			}
+			if judge("after-accepted-large-policy") {
+				c.Distinct("refused-policy|accepted|" + store)
+			}
+			// back to the short form for the next document
+			root.Sub("PUT", b, "", "policy=", []byte(p1))
+		default:
+			if !gp.OK() || string(gp.Body) != p1 {
+				c.Violation("refused-policy-put:policy-in-force-gone-after-refused-put["+store+"]", id, map[string]any{"put": pr.String(), "put_len": len(big), "get_policy_now": gp.String(), "body": clipS(string(gp.Body), 200)})
+			}
+			if judge("after-refused-large-policy") {
+				c.Distinct("refused-policy|refused|" + store)
+			}
+			if gp2 := root.Sub("GET", b, "", "policy=", nil); !gp2.OK() {
+				root.Sub("PUT", b, "", "policy=", []byte(p1))
+			}
+		}
+	}
+}
